@@ -45,6 +45,7 @@ class ShardState:
         self.samples = []
         self.failures = []  # (len, case, detail)
         self.first_fail_eval = None
+        self.first_fail_time = None
         self.budget_hit = False
         self.harness_error = None
         self.exhaustive = None
@@ -90,6 +91,7 @@ class ShardState:
             del self.failures[3:]
             if self.first_fail_eval is None:
                 self.first_fail_eval = self.evaluations
+                self.first_fail_time = time.time()
         return out
 
     def result(self):
@@ -163,11 +165,12 @@ def run_hypothesis(st, shard, of, seed, prop):
     n = max(1, total // of)
     strat = mod.strategy(st.tier)
     shrink_calls = 120 if st.tier == "quick" else 400
+    shrink_s = 40 if st.tier == "quick" else 150
 
     def body(case):
         out = st.run(case)
         if st.first_fail_eval is not None:
-            if st.evaluations - st.first_fail_eval > shrink_calls:
+            if st.evaluations - st.first_fail_eval > shrink_calls or time.time() - st.first_fail_time > shrink_s:
                 raise _Stop()
         if not out["ok"]:
             raise _Mismatch(core.canon(out["detail"])[:500])
